@@ -802,7 +802,12 @@ func (ot *objectTree) Delete() error {
 		return nil
 	}
 	ot.isDeleted = true
-	return ot.storage.Delete(context.Background())
+	err := ot.storage.Delete(context.Background())
+	if err != nil {
+		// nothing was deleted: stay usable, so that the deletion can be tried again
+		ot.isDeleted = false
+	}
+	return err
 }
 
 func (ot *objectTree) SnapshotPath() ([]string, error) {
